@@ -576,7 +576,7 @@ def r_automaton(prog, tier):
     obs = []
     f = prog.func('treeinput', 'brackets')
     M = ReaderModel(prog, f)
-    depth = 4 if tier != 'thorough' else 7
+    depth = 4 if tier != 'thorough' else 10
     sents = 2 if tier != 'thorough' else 3
     # ---- A1 totality: every (class, state) cell has an explicit handler
     for cls in CLASSES:
